@@ -334,6 +334,9 @@ func BuildArgv(g *GenSpec, w *World, root, top string) (argv []string, dir strin
 		argv = append(argv, "-cwd", "./"+filepath.Base(root))
 	default:
 		dir = root
+		if strings.HasPrefix(g.Cwd, "sub:") {
+			dir = filepath.Join(root, filepath.FromSlash(strings.TrimPrefix(g.Cwd, "sub:")))
+		}
 	}
 	globals := g.Globals
 	if globals == nil {
@@ -360,11 +363,65 @@ func BuildArgv(g *GenSpec, w *World, root, top string) (argv []string, dir strin
 	if pats == nil {
 		pats = w.Patterns
 	}
+	if strings.HasPrefix(g.Cwd, "sub:") {
+		// patterns are given relative to the invocation directory
+		sub := strings.TrimPrefix(g.Cwd, "sub:")
+		rel := make([]string, 0, len(pats))
+		for _, p := range pats {
+			if strings.HasPrefix(p, "./") || p == "." {
+				r, err := filepath.Rel(filepath.FromSlash(sub), filepath.FromSlash(strings.TrimPrefix(p, "./")))
+				if err == nil {
+					r = filepath.ToSlash(r)
+					if !strings.HasPrefix(r, ".") {
+						r = "./" + r
+					}
+					p = r
+				}
+			}
+			rel = append(rel, p)
+		}
+		pats = rel
+	}
 	argv = append(argv, pats...)
 	return argv, dir
 }
 
+// settleClock is the simulated modification clock: every file changed since the last run gets
+// the next tick as mtime, far enough in the past for the go command's 2-second rule.
+var settleClock atomic.Int64
+
+func settle(root string) error {
+	cutoff := time.Now().Add(-time.Hour)
+	base := time.Date(2015, 1, 1, 0, 0, 0, 0, time.UTC)
+	var files []string
+	err := filepath.WalkDir(root, func(p string, d fs.DirEntry, err error) error {
+		if err != nil {
+			return err
+		}
+		if d.Type().IsRegular() {
+			if fi, err := d.Info(); err == nil && fi.ModTime().After(cutoff) {
+				files = append(files, p)
+			}
+		}
+		return nil
+	})
+	if err != nil {
+		return err
+	}
+	sort.Strings(files)
+	for _, p := range files {
+		t := base.Add(time.Duration(settleClock.Add(1)) * 3 * time.Second)
+		if err := os.Chtimes(p, t, t); err != nil {
+			return err
+		}
+	}
+	return nil
+}
+
 func (r *Runner) gen(root, top string, w *World, g *GenSpec, inputs map[string]string) (*Obs, error) {
+	if err := settle(root); err != nil {
+		return nil, &InfraError{Msg: "settle: " + err.Error()}
+	}
 	before, err := TakeSnapshot(root)
 	if err != nil {
 		return nil, &InfraError{Msg: "snapshot: " + err.Error()}
@@ -411,6 +468,9 @@ func (r *Runner) gen(root, top string, w *World, g *GenSpec, inputs map[string]s
 		"VERIF_PLAN="+planPath, "VERIF_LOG="+logPath)
 	if g.Gomaxprocs > 0 {
 		env = append(env, fmt.Sprintf("GOMAXPROCS=%d", g.Gomaxprocs))
+	}
+	if g.FileAge == "fresh" {
+		env = append(env, "GODEBUG=goindex=0")
 	}
 	if len(g.Env) > 0 {
 		// keep the go tool's own locations fixed while HOME etc. vary
